@@ -27,9 +27,9 @@ def calls_TemplateGenFromString : List String := ["parser.ParseAndBuild(input)",
 def ops_TemplateGenFromString : List Op := [.fallible, .other, .fallible, .fallible, .fallible, .fallible, .fallible, .fallible, .fallible, .create, .other, .write true]
 
 /-- calls made by TsGenFromString, in source order -/
-def calls_TsGenFromString : List String := ["parser.ParseAndBuild(input)", "fmt.Errorf(\"parse error: %s\", err)", "os.Create(file)", "fmt.Errorf(\"create file error: %s\", err)", "NewTsBuilder(w)", "b.buildConstPart()", "b.buildUionAndCode()", "b.buildAnalyTable()", "b.buildStateFunc()", "b.buildReduceFunc()", "b.buildTranslate()", "f.WriteString(b.CodeHeader)", "f.WriteString(b.ConstPart)", "f.WriteString(b.UnionPart)", "f.WriteString(b.AnalyTable)", "f.WriteString(b.StateFunc)", "f.WriteString(b.ReduceFunc)", "f.WriteString(b.Translate)", "f.WriteString(b.CodeLast)", "f.Close()"]
+def calls_TsGenFromString : List String := ["parser.ParseAndBuild(input)", "fmt.Errorf(\"parse error: %s\", err)", "NewTsBuilder(w)", "b.buildConstPart()", "b.buildUionAndCode()", "b.buildAnalyTable()", "b.buildStateFunc()", "b.buildReduceFunc()", "b.buildTranslate()", "os.Create(file)", "fmt.Errorf(\"create file error: %s\", err)", "f.WriteString(b.CodeHeader)", "f.WriteString(b.ConstPart)", "f.WriteString(b.UnionPart)", "f.WriteString(b.AnalyTable)", "f.WriteString(b.StateFunc)", "f.WriteString(b.ReduceFunc)", "f.WriteString(b.Translate)", "f.WriteString(b.CodeLast)", "f.Close()"]
 
-def ops_TsGenFromString : List Op := [.fallible, .other, .create, .other, .fallible, .fallible, .fallible, .fallible, .fallible, .fallible, .fallible, .write false, .write false, .write false, .write false, .write false, .write false, .write false, .write true, .other]
+def ops_TsGenFromString : List Op := [.fallible, .other, .fallible, .fallible, .fallible, .fallible, .fallible, .fallible, .fallible, .create, .other, .write false, .write false, .write false, .write false, .write false, .write false, .write false, .write true, .other]
 
 def templ_goCode_same_as_go_string : Bool := true
 def templ_goCode_ends_with_epilogue : Bool := true
